@@ -39,8 +39,12 @@ func runAPIHistory(key uint64, upto int) (steps []apiStep, final *run.Violation,
 		n = upto
 	}
 	m := newAPIRunner(env, `,"hk":"`+strconv.FormatUint(key, 10)+`","clk":`+strconv.FormatInt(clk, 10))
+	m.snapAt = 1 + int((key>>7)%uint64(n+1))/2 // a step of the first half (from the key: no PRNG draw)
 	for i := 0; i < n; i++ {
 		steps = append(steps, m.step(g.next()))
+	}
+	if len(steps) > 0 {
+		steps[len(steps)-1].viols = append(steps[len(steps)-1].viols, m.finish()...)
 	}
 	if len(steps) > 0 && g.profile != "" {
 		tag := "profile:" + g.profile
@@ -270,6 +274,9 @@ func apiReplay(req string) string {
 				rename[was[i]] = now[i]
 			}
 		}
+		if len(steps) > 0 {
+			steps[len(steps)-1].viols = append(steps[len(steps)-1].viols, m.finish()...)
+		}
 		final = m.finalProbe()
 	} else if hk, ok := o["hk"].(string); ok {
 		key, err := strconv.ParseUint(hk, 10, 64)
@@ -410,6 +417,7 @@ func apiCorpus() []run.Case {
 		for _, c := range h {
 			steps = append(steps, m.step(c))
 		}
+		steps[len(steps)-1].viols = append(steps[len(steps)-1].viols, m.finish()...)
 		final := m.finalProbe()
 		env.engine.Close()
 		cs := casesOf(steps, final, false, `"corpus":`+strconv.Itoa(i)+`,`)
@@ -429,8 +437,12 @@ func init() {
 			"arguments biased to stored _ids/field values/index names; ~10% malformed histories; every reply and the full catalog dump (documents in natural order, index definitions and members, oplog) " +
 			"after every call are compared with the stateful Lean model; monitors C02 (error/batch), C07 (pairwise key scan after every call; every uniqueness rejection of a write, batch item or index build " +
 			"is justified by a duplicate in the collection it would have produced), C08, C13 (find window), C15 (after every call, failed ones included: every index holds exactly the documents within its partial filter " +
-			"under all their key tuples, in key order, like an index rebuilt from scratch; index names = those created by successful calls), C19, C20 run on the implementation alone; " +
-			"~20% of the well-formed histories follow an index scenario (partial-filter moves, key shifts/swaps in one multi-update, unique build over duplicates, bulk with a failing model, multikey arity changes); " +
+			"under all their key tuples, in key order, like an index rebuilt from scratch; index names = those created by successful calls), " +
+			"C03 (the catalog that was current before a call dumps identically after it; one held catalog, one decoded find result and one unread cursor are re-read at the end), " +
+			"C13 also for the target of find-and-modify calls, C19, C20 run on the implementation alone; " +
+			"key equality and order in the C07/C13/C15 oracles come from an own path walk and an exact big.Rat comparison of numbers; " +
+			"~20% of the well-formed histories follow an index scenario (partial-filter moves, key shifts/swaps in one multi-update, unique build over duplicates, bulk with a failing model, multikey arity changes, 4–5 column compound multikey keys, numeric edge keys) " +
+			"and a third of the sorts on indexed collections use an index key as the sort specification; " +
 			"non-trivial = a successful call that changed the state or returned/matched something",
 		Gen: func(r *gen.R, idx int) []run.Case {
 			return apiCases(r.U64())
